@@ -532,9 +532,9 @@ CHECKS["C01"] = dict(
         dict(name="pbt", harness="pbt", workers=16, args=["--n", "40000"], timeout=10800),
         dict(name="fuzz", harness="fuzz", workers=16, empty_corpus_workers=4, args=["-max_total_time=1200", "-max_len=65536"], unit_timeout=60, timeout=7200),
     ],
-    rule="pbt: a valid file of every front-end (SMF with every event kind, loop markers, device-switch meta; RMI; GMF; MUS; XMI with 1 and 3 songs; CMF header; rapidcheck-generated SMF/RMI) "
+    rule="pbt: a valid file of every front-end (SMF with every event kind, loop markers, device-switch meta; SMF with stacked marker loops; RMI; GMF; MUS; XMI with 1 and 3 songs; XMI with FOR/BREAK/NEXT loops; CMF header; rapidcheck-generated SMF/RMI) "
          "receives 0-4 structured mutations (truncate anywhere, MTrk/IFF length fields set to 0/1/0x7fffffff/0xffffffff/..., division and track count rewritten incl. 0, byte rewrite, end on FF, "
-         "unterminated VLQ, slice duplication/deletion, MUS header fields, trailing bytes, bit flips), is loaded with a song number / loop / tempo chosen before the load and followed by up to 12 ops "
+         "unterminated VLQ, slice duplication/deletion, MUS header fields, trailing bytes, declared meta-event lengths 0/1/2/longer, an XMI branch table (RBRN) of 1..4000 entries with repeating ids, bit flips), is loaded with a song number / loop / tempo chosen before the load and followed by up to 12 ops "
          "(tick, play, seek incl. negative/beyond the end, rewind, queries, song selection -3..5, track/channel options, titles and markers with out-of-range indices, describe, re-open whole or "
          "truncated). fuzz: libFuzzer over file bytes + a decoded tail of the same options/ops, from the committed seed files and from an empty corpus. Oracle: openData returns 0/-1 with an error "
          "text, no sanitizer report / assert / abort / exception, 30 s CPU watchdog, single allocations capped at 256 MiB, and a known-good SMF must load and play to its end afterwards. "
